@@ -443,10 +443,7 @@ impl<V: Clone + Send + Sync + 'static> PartitionedState<V> {
 
     /// Cleans up all spill files.
     pub fn cleanup(&mut self) {
-        for file in self.spill_files.iter_mut().flatten() {
-            let bytes = file.bytes_written();
-            self.manager.unregister_spilled_bytes(bytes);
-        }
+        self.delete_spill_files();
 
         self.spill_files.clear();
         self.partitions.clear();
@@ -458,13 +455,23 @@ impl<V: Clone + Send + Sync + 'static> PartitionedState<V> {
     }
 }
 
+impl<V> PartitionedState<V> {
+    /// Deletes the files of all partitions that are currently on disk.
+    fn delete_spill_files(&mut self) {
+        for slot in &mut self.spill_files {
+            if let Some(file) = slot.take() {
+                let bytes = file.bytes_written();
+                let _ = file.delete();
+                self.manager.unregister_spilled_bytes(bytes);
+            }
+        }
+    }
+}
+
 impl<V> Drop for PartitionedState<V> {
     fn drop(&mut self) {
-        // Unregister spilled bytes
-        for file in self.spill_files.iter().flatten() {
-            let bytes = file.bytes_written();
-            self.manager.unregister_spilled_bytes(bytes);
-        }
+        // Remove the files of partitions that are still on disk
+        self.delete_spill_files();
     }
 }
 
